@@ -18,7 +18,10 @@ MIRI_DIR = os.path.join(V.ROOT, "sim", "xaddmiri")
 
 
 def run_chunk(binary, args, out):
-    r = subprocess.run([binary] + args + ["--out", out], stdout=subprocess.PIPE, stderr=subprocess.STDOUT, text=True)
+    try:
+        r = subprocess.run([binary] + args + ["--out", out], stdout=subprocess.PIPE, stderr=subprocess.STDOUT, text=True, errors="replace", timeout=V.CHUNK_TIMEOUT_S)
+    except subprocess.TimeoutExpired:
+        return "timeout after %ds" % V.CHUNK_TIMEOUT_S, ""
     return r.returncode, r.stdout
 
 
